@@ -235,4 +235,391 @@ theorem init_accepts {σ : Type} (p : Pipeline) (m : MjFeatures) (body : Except 
 /-- without an attached `mj_model` nothing is validated -/
 theorem init_no_model {σ : Type} (p : Pipeline) (body : Except Err σ) : init p none body = body := rfl
 
+/-! ## accepted models load consistently -/
+
+/-- every body of an accepted model carries one free joint or a stack of hinge/slide joints -/
+theorem load_group_shape (m : MjFeatures) (hc : Clean m) : ∀ g ∈ jointGroups m, GroupShape g.2 := by
+  obtain ⟨_, _, _, _, _, _, _, href, _, _, hst, _⟩ := hc
+  intro g hg
+  obtain ⟨hne, hmem⟩ := mem_of_mem_groupRuns _ g hg
+  rcases hst g hg with h0 | ⟨h0, h1⟩
+  · exact Or.inl h0
+  · refine Or.inr ⟨hne, ?_⟩
+    intro t ht
+    have htm : t ∈ m.jntType := (List.of_mem_zip (hmem t ht)).2
+    rcases validJntType_cases t (href.2.1 t htm) with h | h | h | h
+    · subst h; exact absurd ht h0
+    · subst h; exact absurd ht h1
+    · exact Or.inl h
+    · exact Or.inr h
+
+/-- per-link joint type = 'f' for a free body, else the size of the joint stack; no body is
+skipped, so link `i` is the `i`-th body that has joints -/
+theorem load_link_types (m : MjFeatures) (hc : Clean m) (h3 : MaxStack3 m) :
+    linkTypes m = (jointGroups m).map fun g => specLinkType g.2 := by
+  unfold linkTypes
+  rw [filterMap_eq_map_of_forall (fun g => linkTypeOf g.2) (fun g => [specLinkType g.2]) _
+    (fun g hg => linkTypeOf_shape g.2 (load_group_shape m hc g hg) (h3 g hg))]
+  exact flatten_map_singleton _ _
+
+theorem load_link_count (m : MjFeatures) (hc : Clean m) (h3 : MaxStack3 m) :
+    (linkTypes m).length = (jointGroups m).length := by
+  rw [load_link_types m hc h3, List.length_map]
+
+theorem load_types_valid (m : MjFeatures) (hc : Clean m) (h3 : MaxStack3 m) : typesOk (linkTypes m) = true := by
+  rw [load_link_types m hc h3, typesOk, List.all_eq_true]
+  intro c hcm
+  obtain ⟨g, _, rfl⟩ := List.mem_map.1 hcm
+  exact validLinkType_specLinkType g.2
+
+/-- Σ Q_WIDTHS(link_types) = Σ joint q-widths (= nq) -/
+theorem load_counts_q (m : MjFeatures) (hc : Clean m) (h3 : MaxStack3 m)
+    (hl : m.jntBodyid.length = m.jntType.length) :
+    ((linkTypes m).map qWidth).sum = (m.jntType.map jntQWidth).sum := by
+  rw [load_link_types m hc h3, List.map_map]
+  have := sum_groups (jointGroups m) (fun typs => qWidth (specLinkType typs)) jntQWidth
+    (fun g hg => qWidth_specLinkType g.2 (load_group_shape m hc g hg) (h3 g hg))
+  simp only [Function.comp_def]
+  rw [this, jointGroups, groupRuns_flatten, List.map_snd_zip (by omega)]
+
+/-- Σ QD_WIDTHS(link_types) = Σ joint dof-widths (= nv) -/
+theorem load_counts_qd (m : MjFeatures) (hc : Clean m) (h3 : MaxStack3 m)
+    (hl : m.jntBodyid.length = m.jntType.length) :
+    ((linkTypes m).map qdWidth).sum = (m.jntType.map jntQdWidth).sum := by
+  rw [load_link_types m hc h3, List.map_map]
+  have := sum_groups (jointGroups m) (fun typs => qdWidth (specLinkType typs)) jntQdWidth
+    (fun g hg => qdWidth_specLinkType g.2 (load_group_shape m hc g hg) (h3 g hg))
+  simp only [Function.comp_def]
+  rw [this, jointGroups, groupRuns_flatten, List.map_snd_zip (by omega)]
+
+/-- coordinate counts agree with the source model -/
+theorem load_counts (m : MjFeatures) (hc : Clean m) (h3 : MaxStack3 m) (hs : JntShapes m) (ha : AdrOk m) :
+    ((linkTypes m).map qWidth).sum = m.nq ∧ ((linkTypes m).map qdWidth).sum = m.nv ∧
+    m.qpos0.length = m.nq := by
+  obtain ⟨_, _, _, hnq, hnv, hq0⟩ := ha
+  exact ⟨by rw [load_counts_q m hc h3 hs.1, hnq], by rw [load_counts_qd m hc h3 hs.1, hnv], hq0⟩
+
+/-- the bodies of the links: strictly increasing body ids, exactly the bodies that have joints -/
+theorem load_link_bodies (m : MjFeatures) (hsorted : JntSorted m) (hl : m.jntBodyid.length = m.jntType.length) :
+    ((jointGroups m).map (·.1)).Pairwise (· < ·) ∧
+    ∀ b, b ∈ (jointGroups m).map (·.1) ↔ b ∈ m.jntBodyid := by
+  have hkeys : ((m.jntBodyid.zip m.jntType).map (·.1)).Pairwise (· ≤ ·) := by
+    rw [List.map_fst_zip (by omega)]; exact hsorted
+  refine ⟨groupRuns_keys_lt _ hkeys, ?_⟩
+  intro b
+  constructor
+  · intro hb
+    obtain ⟨g, hg, rfl⟩ := List.mem_map.1 hb
+    obtain ⟨hne, hmem⟩ := mem_of_mem_groupRuns _ g hg
+    obtain ⟨a, ha⟩ := List.exists_mem_of_ne_nil _ hne
+    exact (List.of_mem_zip (hmem a ha)).1
+  · intro hb
+    obtain ⟨i, hi, rfl⟩ := List.mem_iff_getElem.1 hb
+    have h1 : m.jntBodyid[i]? = some m.jntBodyid[i] := List.getElem?_eq_getElem hi
+    obtain ⟨t, ht⟩ := getElem?_some_of_lt m.jntType i (by omega)
+    obtain ⟨g, hg, hk, _⟩ := mem_groupRuns_of_mem _ _ t (mem_zip_of_getElem? _ _ _ _ _ h1 ht)
+    exact List.mem_map.2 ⟨g, hg, hk⟩
+
+/-- with every non-world body jointed (after `_fuse_bodies`), link `i` is body `i + 1` -/
+theorem load_link_body_ids (m : MjFeatures) (hsorted : JntSorted m) (hl : m.jntBodyid.length = m.jntType.length)
+    (hb : BodiesJointed m) :
+    (jointGroups m).map (·.1) = (List.range' 1 (m.bodyParentid.length - 1)).map Int.ofNat := by
+  obtain ⟨hlt, hmem⟩ := load_link_bodies m hsorted hl
+  apply List.Pairwise.eq_of_mem_iff hlt
+  · rw [List.pairwise_map]
+    exact (List.pairwise_lt_range' (s := 1) (n := m.bodyParentid.length - 1)).imp
+      (by intro a b h; exact Int.ofNat_lt.2 h)
+  · intro b
+    rw [hmem b]
+    constructor
+    · intro hbm
+      obtain ⟨h1, h2⟩ := hb.1 b hbm
+      refine List.mem_map.2 ⟨b.toNat, ?_, ?_⟩
+      · rw [List.mem_range'_1]; omega
+      · simp only [Int.ofNat_eq_natCast]; omega
+    · intro hbm
+      obtain ⟨n, hn, rfl⟩ := List.mem_map.1 hbm
+      exact hb.2 n hn
+
+/-- as many links as non-world bodies, as many parents as links -/
+theorem load_link_count_bodies (m : MjFeatures) (hc : Clean m) (h3 : MaxStack3 m) (hsorted : JntSorted m)
+    (hl : m.jntBodyid.length = m.jntType.length) (hb : BodiesJointed m) :
+    (linkTypes m).length = m.bodyParentid.length - 1 ∧ (linkParents m).length = (linkTypes m).length := by
+  have h1 : (linkTypes m).length = m.bodyParentid.length - 1 := by
+    rw [load_link_count m hc h3]
+    have := congrArg List.length (load_link_body_ids m hsorted hl hb)
+    simpa using this
+  exact ⟨h1, by rw [h1]; simp [linkParents]⟩
+
+/-- parent-before-child: `-1 ≤ link_parents[i] < i`, and it is the parent body's link -/
+theorem load_parent_lt (m : MjFeatures) (hb : BodyOrder m) (i : Nat) (p : Int)
+    (h : (linkParents m)[i]? = some p) :
+    -1 ≤ p ∧ p < (i : Int) ∧ m.bodyParentid[i + 1]? = some (p + 1) := by
+  unfold linkParents at h
+  rw [List.getElem?_drop, List.getElem?_map] at h
+  have hlt : 1 + i < m.bodyParentid.length := by
+    by_contra hc
+    rw [List.getElem?_eq_none (by omega)] at h
+    cases h
+  rw [List.getElem?_eq_getElem hlt] at h
+  have hp : m.bodyParentid[1 + i] - 1 = p := by simpa using h
+  obtain ⟨h0, h1⟩ := hb.2 (1 + i) hlt (by omega)
+  refine ⟨by omega, by omega, ?_⟩
+  rw [show i + 1 = 1 + i by omega, List.getElem?_eq_getElem hlt]
+  congr 1; omega
+
+/-- initial pose = source `qpos0`; on an accepted model every non-free coordinate of it is 0 -/
+theorem load_init_q (m : MjFeatures) (o : LoadOut) (h : loadStructure m = some o) : o.initQ = m.qpos0 := by
+  unfold loadStructure at h
+  cases hq : actIds m m.jntQposadr with
+  | none => simp [hq] at h
+  | some q =>
+    cases hqd : actIds m m.jntDofadr with
+    | none => simp [hq, hqd] at h
+    | some qd =>
+      simp [hq, hqd] at h
+      rw [← h]
+
+/-- on an accepted, well-formed model `load_model` keeps every actuator, in order, and its
+`q_id` / `qd_id` are the addresses of the actuated joint -/
+theorem load_actuators (m : MjFeatures) (hc : Clean m) (hs : JntShapes m) (hsa : ActShapes m) (hao : ActOk m) :
+    ∃ o, loadStructure m = some o ∧
+      o.actQId.map some = m.actTrnid.map (fun id => m.jntQposadr[id.toNat]?) ∧
+      o.actQdId.map some = m.actTrnid.map (fun id => m.jntDofadr[id.toNat]?) ∧
+      o.linkTypes = linkTypes m ∧ o.linkParents = linkParents m := by
+  obtain ⟨_, _, _, _, _, hact, _⟩ := hc
+  have hall : ∀ ti ∈ m.actTrntype.zip m.actTrnid, ti.1 = 0 := fun ti hti => hact.2.2 ti.1 (List.of_mem_zip hti).1
+  have hfilter : (m.actTrntype.zip m.actTrnid).filter (·.1 == 0) = m.actTrntype.zip m.actTrnid := by
+    rw [List.filter_eq_self]; intro ti hti; simp [hall ti hti]
+  have key : ∀ adr : List Int, adr.length = m.jntType.length →
+      ∃ r, actIds m adr = some r ∧ r.map some = m.actTrnid.map (fun id => adr[id.toNat]?) := by
+    intro adr hadr
+    unfold actIds
+    rw [hfilter]
+    obtain ⟨r, hr, hm⟩ := mapM_option_some
+      (fun ti : Int × Int => if ti.2 < 0 then none else adr[ti.2.toNat]?) (m.actTrntype.zip m.actTrnid)
+      (by
+        intro ti hti
+        obtain ⟨h0, h1⟩ := hao ti hti (hall ti hti)
+        have : ¬ ti.2 < 0 := by omega
+        simp only [this, if_false]
+        rw [List.getElem?_eq_getElem (by omega)]; rfl)
+    refine ⟨r, hr, ?_⟩
+    rw [hm]
+    have hz : m.actTrnid = (m.actTrntype.zip m.actTrnid).map (·.2) := by
+      rw [List.map_snd_zip (by rw [hsa.2.2])]
+    conv_rhs => rw [hz]
+    rw [List.map_map]
+    apply List.map_congr_left
+    intro ti hti
+    obtain ⟨h0, _⟩ := hao ti hti (hall ti hti)
+    have : ¬ ti.2 < 0 := by omega
+    simp [this]
+  obtain ⟨q, hq, hqm⟩ := key m.jntQposadr hs.2.2.2.2.2.1
+  obtain ⟨qd, hqd, hqdm⟩ := key m.jntDofadr hs.2.2.2.2.2.2
+  exact ⟨_, by simp [loadStructure, hq, hqd]; rfl, hqm, hqdm, rfl, rfl⟩
+
+
+
+/-! ## the index helpers of `base.System` (any valid `link_types`, any number of links) -/
+
+/-- `dof_ranges()` partitions `[0, nv)` contiguously and in link order; the i-th range starts at
+the prefix sum of the widths and has link i's width -/
+theorem dofRanges_partition (ts : List Char) (h : typesOk ts = true) :
+    ∃ rs, dofRanges ts = some rs ∧ rs.length = ts.length ∧
+      rs.flatten = List.range ((ts.map qdWidth).sum) ∧
+      ∀ i (hi : i < ts.length), rs[i]? = some (List.range' (prefixSum (ts.map qdWidth) i) (qdWidth ts[i])) := by
+  refine ⟨dofRangesFrom 0 ts, by simp [dofRanges, h], dofRangesFrom_length 0 ts, ?_, ?_⟩
+  · rw [dofRangesFrom_flatten, List.range_eq_range']
+  · intro i hi
+    rw [List.getElem?_eq_getElem (by rw [dofRangesFrom_length]; exact hi), dofRangesFrom_getElem 0 ts i hi]
+    simp
+
+/-- `q_idx` of all four types enumerates `[0, nq)` -/
+theorem qIdx_all (ts : List Char) (h : typesOk ts = true) :
+    qIdx ts ['f', '1', '2', '3'] = some (List.range ((ts.map qWidth).sum)) := by
+  simp only [qIdx, h, if_true]
+  rw [idxFrom_all qWidth _ 0 ts (mem_all_types_of_typesOk ts h), List.range_eq_range']
+
+theorem qdIdx_all (ts : List Char) (h : typesOk ts = true) :
+    qdIdx ts ['f', '1', '2', '3'] = some (List.range ((ts.map qdWidth).sum)) := by
+  simp only [qdIdx, h, if_true]
+  rw [idxFrom_all qdWidth _ 0 ts (mem_all_types_of_typesOk ts h), List.range_eq_range']
+
+/-- the per-type index sets are disjoint and together enumerate the whole range (for `q_idx` with
+`w = qWidth`, for `qd_idx` with `w = qdWidth`), and each is an increasing sublist of it -/
+theorem idx_types_partition (w : Char → Nat) (ts : List Char) (h : typesOk ts = true) :
+    (idxFrom w ['f'] 0 ts ++ (idxFrom w ['1'] 0 ts ++ (idxFrom w ['2'] 0 ts ++ idxFrom w ['3'] 0 ts))).Perm
+      (List.range ((ts.map w).sum)) ∧
+    ∀ sel, (idxFrom w sel 0 ts).Sublist (List.range ((ts.map w).sum)) := by
+  constructor
+  · have h23 := idxFrom_union w ['2'] ['3'] 0 ts (by
+      intro t _ hh
+      simp only [List.mem_cons, List.mem_nil_iff, or_false] at hh
+      have := hh.1.symm.trans hh.2
+      exact absurd this (by decide))
+    have h123 := idxFrom_union w ['1'] (['2'] ++ ['3']) 0 ts (by
+      intro t _ hh
+      simp only [List.cons_append, List.nil_append, List.mem_cons, List.mem_nil_iff, or_false] at hh
+      rcases hh.2 with h2 | h2
+      · exact absurd (hh.1.symm.trans h2) (by decide)
+      · exact absurd (hh.1.symm.trans h2) (by decide))
+    have hall := idxFrom_union w ['f'] (['1'] ++ (['2'] ++ ['3'])) 0 ts (by
+      intro t _ hh
+      simp only [List.cons_append, List.nil_append, List.mem_cons, List.mem_nil_iff, or_false] at hh
+      rcases hh.2 with h2 | h2 | h2
+      · exact absurd (hh.1.symm.trans h2) (by decide)
+      · exact absurd (hh.1.symm.trans h2) (by decide)
+      · exact absurd (hh.1.symm.trans h2) (by decide))
+    have e : idxFrom w (['f'] ++ (['1'] ++ (['2'] ++ ['3']))) 0 ts = List.range ((ts.map w).sum) := by
+      rw [show (['f'] ++ (['1'] ++ (['2'] ++ ['3']))) = ['f', '1', '2', '3'] from rfl,
+        idxFrom_all w _ 0 ts (mem_all_types_of_typesOk ts h), List.range_eq_range']
+    rw [← e]
+    exact ((List.Perm.append_left _ ((List.Perm.append_left _ h23).trans h123)).trans hall)
+  · intro sel
+    rw [List.range_eq_range']
+    exact idxFrom_sublist w sel 0 ts
+
+/-- `dof_link()` has one entry per dof, is non-decreasing, names existing links, and repeats the
+link index over that link's `dof_ranges()` entry -/
+theorem dofLink_spec (ts : List Char) (h : typesOk ts = true) :
+    ∃ dl rs, dofLink ts = some dl ∧ dofRanges ts = some rs ∧
+      dl.length = (ts.map qdWidth).sum ∧ dl.Pairwise (· ≤ ·) ∧ (∀ x ∈ dl, x < ts.length) ∧
+      dl = ((rs.zipIdx).map fun rk => List.replicate rk.1.length rk.2).flatten := by
+  refine ⟨dofLinkFrom 0 ts, dofRangesFrom 0 ts, by simp [dofLink, h], by simp [dofRanges, h],
+    dofLinkFrom_length 0 ts, dofLinkFrom_sorted 0 ts, ?_, dofLinkFrom_eq_ranges 0 0 ts⟩
+  intro x hx
+  simpa using dofLinkFrom_lt 0 ts x hx
+
+/-- an unknown link type makes every helper raise (`KeyError`) -/
+theorem helpers_keyError (ts : List Char) (h : typesOk ts = false) (sel : List Char) :
+    dofLink ts = none ∧ dofRanges ts = none ∧ qIdx ts sel = none ∧ qdIdx ts sel = none := by
+  simp [dofLink, dofRanges, qIdx, qdIdx, h]
+
+/-! ## the system of an accepted model, in one statement -/
+
+/-- For every model accepted by `validate_model` that has MuJoCo's array shapes (`WF`) and at most
+three joints per body: `load_model` succeeds; coordinate counts, link count, per-link types,
+parent order, actuator indices and the initial pose agree with the source model; the index
+helpers succeed on its `link_types` and partition `[0,nq)` / `[0,nv)`. -/
+theorem load_consistent (m : MjFeatures) (hok : validate m = .ok ()) (hwf : WF m) (h3 : MaxStack3 m) :
+    ∃ o, loadStructure m = some o ∧
+      o.initQ = m.qpos0 ∧ o.initQ.length = m.nq ∧
+      (o.linkTypes.map qWidth).sum = m.nq ∧ (o.linkTypes.map qdWidth).sum = m.nv ∧
+      o.linkTypes = (jointGroups m).map (fun g => specLinkType g.2) ∧
+      (jointGroups m).map (·.1) = (List.range' 1 (m.bodyParentid.length - 1)).map Int.ofNat ∧
+      o.linkTypes.length = m.bodyParentid.length - 1 ∧ o.linkParents.length = o.linkTypes.length ∧
+      (∀ (i : Nat) (p : Int), o.linkParents[i]? = some p → -1 ≤ p ∧ p < (i : Int)) ∧
+      o.actQId.map some = m.actTrnid.map (fun id => m.jntQposadr[id.toNat]?) ∧
+      o.actQdId.map some = m.actTrnid.map (fun id => m.jntDofadr[id.toNat]?) ∧
+      typesOk o.linkTypes = true := by
+  have hc := (validate_ok_iff_clean m).1 hok
+  obtain ⟨hs, _, hsa, hsorted, hadr, hbo, hbj, hao⟩ := hwf
+  obtain ⟨o, ho, hq, hqd, hlt, hlp⟩ := load_actuators m hc hs hsa hao
+  obtain ⟨hnq, hnv, hq0⟩ := load_counts m hc h3 hs hadr
+  obtain ⟨hcnt, hpar⟩ := load_link_count_bodies m hc h3 hsorted hs.1 hbj
+  refine ⟨o, ho, load_init_q m o ho, ?_, ?_, ?_, ?_, load_link_body_ids m hsorted hs.1 hbj, ?_, ?_, ?_, hq, hqd, ?_⟩
+  · rw [load_init_q m o ho]; exact hq0
+  · rw [hlt]; exact hnq
+  · rw [hlt]; exact hnv
+  · rw [hlt]; exact load_link_types m hc h3
+  · rw [hlt]; exact hcnt
+  · rw [hlt, hlp]; exact hpar
+  · intro i p hp
+    rw [hlp] at hp
+    obtain ⟨h1, h2, _⟩ := load_parent_lt m hbo i p hp
+    exact ⟨h1, h2⟩
+  · rw [hlt]; exact load_types_valid m hc h3
+
+
+
+/-! ## DEFECT: a colliding long cylinder with `contype = 0` is accepted
+
+`mask = mj.geom_contype[i] | mj.geom_conaffinity[i] << 32` is evaluated on `numpy.int32`
+scalars: the shift by the full width gives 0, the conaffinity half never reaches the mask.  The
+property (and the error message "not supported for collision") speaks of *colliding* cylinders;
+MuJoCo / mjx collide a pair when `contype₁ & conaffinity₂ ≠ 0 ∨ contype₂ & conaffinity₁ ≠ 0`, so a
+cylinder with `conaffinity = 1` collides with every default geom.  Confirmed on the real code:
+`harness/corr_C14.py` (feature `cylinder`, variant `conaffinity-only`) — all three `init`s accept
+and `contact.get` lists contacts of that cylinder. -/
+
+/-- the full-strength statement of the property for cylinders -/
+def validate_rejects_cylinder_Stmt : Prop :=
+  ∀ m : MjFeatures, GeomShapes m → CollidingLongCylinder m → validate m ≠ .ok ()
+
+/-- witness: a well-formed model with a long (half-length 0.2) cylinder whose conaffinity is 1 —
+colliding by the property's reading — is accepted by `validate_model` -/
+theorem cylinder_conaffinity_only_accepted :
+    WF exCylinder ∧ CollidingLongCylinder exCylinder ∧ validate exCylinder = .ok () := by
+  decide +kernel
+
+/-- hence the full statement is false of the code; what holds is `validate_rejects_cylinder_partial` -/
+theorem validate_rejects_cylinder_Stmt_false : ¬ validate_rejects_cylinder_Stmt := by
+  intro h
+  obtain ⟨hwf, hcol, hok⟩ := cylinder_conaffinity_only_accepted
+  exact h exCylinder hwf.2.1 hcol hok
+
+/-- ... and every pipeline's `init` lets that model through -/
+theorem init_accepts_conaffinity_only_cylinder (p : Pipeline) :
+    init p (some exCylinder) (.ok ()) = .ok () := by
+  rw [init_accepts p exCylinder _ cylinder_conaffinity_only_accepted.2.2]
+
+/-! ## non-vacuity: a concrete accepted model, and one rejected model per feature -/
+
+example : validate exClean = .ok () := by decide +kernel
+example : Clean exClean ∧ WF exClean ∧ MaxStack3 exClean := by decide +kernel
+example : loadStructure exClean =
+    some ⟨['f', '2', '1'], [-1, 0, -1], [7, 9], [6, 8], exClean.qpos0⟩ := by decide +kernel
+example : dofLink ['f', '2', '1'] = some [0, 0, 0, 0, 0, 0, 1, 1, 2] := by decide +kernel
+example : dofLinkDepth ['f', '2', '1'] [-1, 0, -1] = some [0, 0, 0, 0, 0, 0, 0, 0, 1] := by decide +kernel
+example : dofRanges ['f', '2', '1'] = some [[0, 1, 2, 3, 4, 5], [6, 7], [8]] := by decide +kernel
+example : qIdx ['f', '2', '1'] ['1', '2'] = some [7, 8, 9] := by decide +kernel
+example : dofLink ['f', '4'] = none := by decide +kernel
+
+-- each unsupported feature at some element of the otherwise clean model, with the kind the code raises
+example : validate { exClean with integrator := 3 } = .error .notImplemented := by decide +kernel
+example : validate { exClean with cone := 1 } = .error .notImplemented := by decide +kernel
+example : validate { exClean with wind := [0, 0, 1/2] } = .error .notImplemented := by decide +kernel
+example : validate { exClean with
+    geomFluid := [List.replicate 12 0, List.replicate 12 0, 1 :: List.replicate 11 (1/2), List.replicate 12 0] }
+    = .error .notImplemented := by decide +kernel
+example : validate { exClean with impratio := 1/2 } = .error .notImplemented := by decide +kernel
+example : validate { exClean with actTrntype := [0, 4] } = .error .notImplemented := by decide +kernel
+example : validate { exClean with actGaintype := [0, 1] } = .error .notImplemented := by decide +kernel
+example : validate { exClean with actBiastype := [0, 2] } = .error .notImplemented := by decide +kernel
+example : validate { exClean with qpos0 := [0, 0, 0, 1, 0, 0, 0, 0, 3/10, 0] } = .error .notImplemented := by
+  decide +kernel
+-- a ball joint on body 3 (qpos0 zero to reach the stack check; MuJoCo's own qpos0 has w = 1 and
+-- is caught by the reference check already)
+example : validate { exClean with jntType := [0, 3, 3, 1], qpos0 := List.replicate 13 0, nq := 13, nv := 11 }
+    = .error .notImplemented := by decide +kernel
+example : validate { exClean with jntType := [0, 3, 3, 1], qpos0 := [0, 0, 0, 1, 0, 0, 0, 0, 0, 1, 0, 0, 0] }
+    = .error .notImplemented := by decide +kernel
+example : validate { exClean with jntStiffness := [1/1000, 2, 0, 0] } = .error .runtime := by decide +kernel
+example : validate { exClean with geomSolmix := [1, 1, 2, 1] } = .error .notImplemented := by decide +kernel
+example : validate { exClean with geomPriority := [0, 0, 0, 1] } = .error .notImplemented := by decide +kernel
+example : validate { exClean with geomContype := [1, 1, 1, 1] } = .error .notImplemented := by decide +kernel
+example : validate { exClean with jntPos := [(0, 0, 0), (1/10, 0, 0), (1/10, 0, 1/10), (0, 0, 0)] }
+    = .error .runtime := by decide +kernel
+-- boundaries: half-length exactly the double 0.001 is accepted even when colliding; no geoms / no
+-- joints are index / value errors
+example : validate { exClean with
+    geomSize := [(5, 5, 1/10), (1/10, 0, 0), (1/20, 1/5, 0), (1/10, cylThreshold, 0)]
+    geomContype := [1, 1, 1, 1] } = .ok () := by decide +kernel
+example : validate { exClean with geomSolmix := [] } = .error .other := by decide +kernel
+example : validate { exClean with jntType := [] } = .error .other := by decide +kernel
+-- the hypotheses of the rejection theorems are satisfiable (here: two joints of body 2 with
+-- different anchors; a reference offset on the slide joint; stiffness on the free joint)
+example : validate { exClean with jntPos := [(0, 0, 0), (1/10, 0, 0), (1/10, 0, 1/10), (0, 0, 0)] } ≠ .ok () :=
+  validate_rejects_anchor _ (by decide +kernel) (by decide +kernel)
+    ⟨1, 2, 2, (1/10, 0, 0), (1/10, 0, 1/10), by decide +kernel⟩
+example : validate { exClean with qpos0 := [0, 0, 0, 1, 0, 0, 0, 0, 0, 3/10] } ≠ .ok () :=
+  validate_rejects_ref _ ⟨3, 2, 0, 3/10, by decide +kernel⟩
+example : validate { exClean with jntStiffness := [1, 2, 0, 0] } ≠ .ok () :=
+  validate_rejects_free_stiffness _ (by decide +kernel) ⟨0, 1, by decide +kernel⟩
+example : ∃ o, loadStructure exClean = some o ∧ (o.linkTypes.map qWidth).sum = 10 := by
+  obtain ⟨o, ho, _, _, hq, _⟩ := load_consistent exClean (by decide +kernel) (by decide +kernel) (by decide +kernel)
+  exact ⟨o, ho, hq⟩
+
+
 end Brax.C14
